@@ -11,14 +11,24 @@ import (
 
 	"github.com/jamespfennell/gtfs"
 	"github.com/jamespfennell/gtfs/journal"
+	gtfsrt "github.com/jamespfennell/gtfs/proto"
 	"github.com/jamespfennell/gtfs/verifhook"
 
 	"vharness/internal/abs"
 )
 
-// Base is 2020-09-13T00:00:00Z; abstract instants are offsets from it, so every
+// Base is 2020-11-01T04:00:00Z = midnight of the day America/New_York leaves daylight saving time (at 06:00Z);
+// abstract instants are offsets from it (3600 = 01:00 EDT, 7200 = 01:00 EST, 10800 = 02:00 EST), so every
 // concrete Unix time has the same number of digits (string order of UIDs = numeric order).
-const Base int64 = 1599955200
+const Base int64 = 1604203200
+
+var newYork = func() *time.Location {
+	l, err := time.LoadLocation("America/New_York")
+	if err != nil {
+		panic(err)
+	}
+	return l
+}()
 
 type Stu struct {
 	Stop  int          `json:"stop"`
@@ -91,7 +101,7 @@ const (
 	RoutePfx = "R&"
 	VehPfx   = "V+\t"
 	StopPfx  = "S< \u00a0"
-	TrackPfx = "T'> \\"
+	TrackPfx = " T'> \\"
 	sfxTail  = "+&"
 )
 
@@ -142,15 +152,27 @@ func ConcreteFeed(f Feed) *gtfs.Realtime {
 		if u.Sfx%3 == 2 {
 			date, tod = date-90000, tod+90000
 		}
+		startDate := tm(date)
+		if u.Sfx%3 == 1 {
+			// every third suffix writes the date as local midnight in New York and the time as elapsed time since then;
+			// the wall clock repeats an hour that day, the start instant is date + elapsed time all the same
+			startDate, tod = time.Unix(Base, 0).In(newYork), u.Start
+		}
+		// the schedule relationship is no part of what the journal records: some updates are flagged canceled
+		sr := gtfsrt.TripDescriptor_SCHEDULED
+		if (u.Pfx+u.Sfx)%3 == 0 {
+			sr = gtfsrt.TripDescriptor_CANCELED
+		}
 		t := gtfs.Trip{
 			ID: gtfs.TripID{
-				ID:           fmt.Sprintf("%06d", u.Pfx*100) + sfxName(u.Sfx),
-				RouteID:      RoutePfx + strconv.Itoa(u.Route),
-				DirectionID:  gtfs.DirectionID(u.Dir),
-				HasStartTime: true,
-				StartTime:    time.Duration(tod) * time.Second,
-				HasStartDate: true,
-				StartDate:    tm(date),
+				ID:                   fmt.Sprintf("%06d", u.Pfx*100) + sfxName(u.Sfx),
+				RouteID:              RoutePfx + strconv.Itoa(u.Route),
+				DirectionID:          gtfs.DirectionID(u.Dir),
+				HasStartTime:         true,
+				StartTime:            time.Duration(tod) * time.Second,
+				HasStartDate:         true,
+				StartDate:            startDate,
+				ScheduleRelationship: sr,
 			},
 			IsEntityInMessage: true,
 		}
@@ -164,6 +186,11 @@ func ConcreteFeed(f Feed) *gtfs.Realtime {
 		for _, s := range u.Stus {
 			stopID := StopPfx + strconv.Itoa(s.Stop)
 			stu := gtfs.StopTimeUpdate{StopID: &stopID}
+			if s.Stop == 0 { // stop token 0: a stop time update that names no stop (it is identified by its sequence only)
+				stu.StopID = nil
+				seq := uint32(77)
+				stu.StopSequence = &seq
+			}
 			if s.Arr.IsSome() {
 				x := tm(s.Arr.Val())
 				stu.Arrival = &gtfs.StopTimeEvent{Time: &x}
@@ -197,6 +224,13 @@ func numAfter(prefix, s string) int {
 		return -1
 	}
 	return n
+}
+
+func stopTok(id string) int {
+	if id == "" {
+		return 0
+	}
+	return numAfter(StopPfx, id)
 }
 
 func optTime(t *time.Time) abs.Opt[int] {
@@ -248,7 +282,7 @@ func ProjTrip(t *journal.Trip) Entry {
 	for i := range t.StopTimes {
 		s := &t.StopTimes[i]
 		st := St{
-			Stop:    numAfter(StopPfx, s.StopID),
+			Stop:    stopTok(s.StopID),
 			Arr:     optTime(s.ArrivalTime),
 			Dep:     optTime(s.DepartureTime),
 			LastObs: off(s.LastObserved),
@@ -412,6 +446,9 @@ func Gen(r *rand.Rand, nFeeds, nTrips, nStops int) Case {
 		n := 3 + r.Intn(nStops-2)
 		for k := 0; k < n; k++ {
 			t.route = append(t.route, 1+r.Intn(nStops))
+		}
+		if r.Intn(6) == 0 { // now and then a stop time update that names no stop
+			t.route[r.Intn(len(t.route))] = 0
 		}
 		ts = append(ts, t)
 	}
